@@ -8,6 +8,7 @@ The models follow the code after the `fix:` commits for D8, D9, D17 and the two 
 import ErgoVerif.Lemmas.CronReach
 import ErgoVerif.Lemmas.CronPrint
 import ErgoVerif.Lemmas.CronFits
+import ErgoVerif.Lemmas.CronGrammar
 namespace ErgoVerif.Props.C20
 open ErgoVerif.Cron ErgoVerif.CronSched ErgoVerif.Generated.Cron
 
@@ -51,6 +52,26 @@ example : (⟨.list [.starStep 15, .num 59], .list [.rangeStep 0 23 2], .list [.
     ranges, steps 1..max, `L` only in the day field, `wL`/`w#n` only in the weekday field, no empty list, five fields -/
 theorem C20_parse_sound (cs : List Char) (s : Spec) (h : parseSpec cs = some s) : s.valid = true :=
   parseSpec_valid h
+
+/-- The parser accepts exactly the grammar, at the level of the text: `SpecText cs s` says that cs (after macro
+    expansion) consists of five white-space separated fields, each `*` or a comma-separated list of option texts —
+    decimal numerals (leading zeros allowed) `d`, `d-d`, `d-d/d`, `*/d`, `L`, `wL`, `w#n` — whose values form the valid
+    AST s. Every other text is rejected. -/
+theorem C20_parse (cs : List Char) (s : Spec) : parseSpec cs = some s ↔ SpecText cs s :=
+  parseSpec_iff cs s
+
+theorem C20_parse_rejects (cs : List Char) : parseSpec cs = none ↔ ¬ ∃ s, SpecText cs s := by
+  constructor
+  · intro h ⟨s, hs⟩
+    rw [(parseSpec_iff cs s).mpr hs] at h; cases h
+  · intro h
+    cases hp : parseSpec cs with
+    | none => rfl
+    | some s => exact absurd ⟨s, (parseSpec_iff cs s).mp hp⟩ h
+
+-- non-canonical text of the grammar (leading zeros, tabs, several blanks) and the AST it denotes
+example : parseSpec " 007  *\t*/02 1-3 7L,01 ".toList =
+    some ⟨.list [.num 7], .star, .list [.starStep 2], .list [.range 1 3], .list [.lastW 7, .num 1]⟩ := by decide
 
 /-- the anchors the parser model was written against are the ones in the working tree -/
 theorem C20_anchor_fields : fieldCount = 5 ∧
